@@ -405,7 +405,7 @@ impl AstVm {
                             let value = sp!(op.span => binop).const_eval(
                                 self.read_var_by_ast(var, resolutions),
                                 self.eval(value, resolutions),
-                            );
+                            ).expect("division by zero in vm");
                             self.write_var_by_ast(var, value, resolutions);
                         },
                     }
@@ -451,7 +451,9 @@ impl AstVm {
                 }
             },
 
-            ast::Expr::BinOp(a, op, b) => op.const_eval(self.eval(a, resolutions), self.eval(b, resolutions)),
+            ast::Expr::BinOp(a, op, b) => {
+                op.const_eval(self.eval(a, resolutions), self.eval(b, resolutions)).expect("division by zero in vm")
+            },
 
             ast::Expr::Call(ast::ExprCall { .. }) => unimplemented!("func calls in VM exprs"),
 
